@@ -5,7 +5,9 @@ set, that the winners of a sub-pot are drawn from exactly that set by equality
 with the maximum over exactly that set, that the hand types a pot is split
 over depend on the pot's own contenders, the lone-survivor arm, dead players
 never hold a hand, and writer/reader agreement on the sub-pot records.
-Not decided: hand strength (C04/C05) and the amounts of the layers (C01).
+The two clauses C02 shares with other properties are decided by the same rule families, re-filed under C02 names:
+"in the right amounts" is the pot arithmetic of C01 (C02.amounts) and "the strongest hand" is the best-of-combinations
+search of C05 (C02.strongest).  Not decided: the order of two given hands (C04).
 """
 from __future__ import annotations
 
@@ -33,7 +35,15 @@ def run(chk, ctx) -> None:
     _pots(re, ctx)
     _divmod(re, ctx)
     _mirror_transfer(re, ctx, chip_writers(ctx))
+    # ... and the division every variant is built with is the package's own (exact quotient, remainder by the smallest unit)
+    from .helpers import default_helpers
+    default_helpers(chk, ctx, 'C02.amounts', ['state', 'games', 'notation'])
     chk.floor('C02.amounts', 18)
+    # "the strongest hand": the hand a player takes to the showdown is the one Hand.from_game forms (C05's search clauses)
+    from . import c05
+    c05.run(Refile(chk, {r: 'C02.strongest' for r in ('C05.exhaustive', 'C05.polarity', 'C05.source', 'C05.badugi', 'C05.errors',
+                                                      'C05.counts', 'C05.helpers', 'C05.none')}), ctx)
+    chk.floor('C02.strongest', 40)
     # only tabled cards take part in the showdown: the face-up flags of a partial show cover exactly the named cards
     from .cover import showing_components
     showing_components(Refile(chk, {'C12.show_flags': 'C02.hand_source'}), ctx)
